@@ -25,9 +25,6 @@ ASSUMPTIONS = [
 
 # S9: one-symbol exceptions, each with its reason.
 S9_EXCEPTIONS = {
-    ('premade', 'dtype'):
-        'a non-default dtype is not a constructible premade configuration on '
-        'this tree (build_linear_layer fails), so no failing round trip exists',
 }
 NESTED_KEYS = ('feature_configs', 'regularizer_configs', 'reflects_trust_in',
                'dominates')
@@ -38,6 +35,8 @@ def run(prog, res):
   for q in ('lattice_lib.project_by_dykstra', 'lattice_lib._approximately_project_trapezoid'):
     hashkeys.check_function(prog, res, prog.function(q))
   res.floor('T4', 8)
+  serial.check_config_not_mutated(prog, res)
+  res.floor('S12', 8)
   n_classes = 0
   config_base = prog.cls('configs._Config')
   for c in sorted(prog.all_classes(), key=lambda c: c.qualname):
@@ -166,18 +165,29 @@ def _check_keras_class(prog, res, c):
                 'value (False, 0, []) by the default, so the rebuilt object '
                 'differs from the saved one' % (p, norm_text(v)[:50]))
   # ---- S3 / S4 per key
+  adeps = serial.attr_param_deps(init)
   for key, entries in sorted(cm.keys.items()):
+    alias = None
     for v, g, node in entries:
       if fm is None and key not in params:
         continue  # already reported by S1; the attribute name is unknown
       reads = names_read(v)
-      res.check('self.' + key in reads, 'S3', '%s|%s' % (q, key), gc.loc(node),
-                'value of %r reads self.%s' % (key, key),
-                'value stored under %r is %s, which does not read self.%s' % (
-                    key, norm_text(v)[:60], key))
+      good = 'self.' + key in reads
+      if not good:
+        # an attribute of another name that __init__ computes from the
+        # parameter `key` (e.g. a read-only base-class property of that name)
+        for r in sorted(reads):
+          if r.startswith('self.') and key in adeps.get(r[5:], ()):
+            good, alias = True, r[5:]
+      res.check(good, 'S3', '%s|%s' % (q, key), gc.loc(node),
+                'value of %r reads self.%s' % (key, alias or key),
+                'value stored under %r is %s, which reads neither self.%s nor '
+                'an attribute computed from the parameter %s' % (
+                    key, norm_text(v)[:60], key, key))
     if key in params:
       serial.check_attr_provenance(
-          res, c, init, key, conditional=all(g for (_, g, _) in entries))
+          res, c, init, key, conditional=all(g for (_, g, _) in entries),
+          attr_name=alias)
     elif c.kind == 'Model' and key in ('name', 'trainable'):
       res.ok('S4', '%s|%s' % (q, key), gc.loc(),
              'keras.Model property %s (set through **kwargs)' % key)
